@@ -23,7 +23,7 @@ import numpy as np
 import pandas as pd
 
 from . import _stateful_oracles as O
-from ._stateful_util import Reporter, WorkResult, chunked, code, fl, merge, pmap, quiet_numpy
+from ._stateful_util import Reporter, WorkResult, chunked, code, fl, guard, merge, pmap, quiet_numpy
 
 EPS = float(np.finfo(float).eps)
 
@@ -1110,7 +1110,7 @@ def run_bounded(ctx):
     ) as b:
         rep = Reporter(ctx, b)
         cases = _scale_cases(rng, 20000 if thorough else 1200, 5 if thorough else 4)
-        merge(b, rep, pmap(_scale_worker, chunked(cases, 32)))
+        merge(b, rep, pmap(guard("vf.bounded.c13", "_scale_worker", "C13.scale.train-values"), chunked(cases, 32)))
         rep.close()
 
     with ctx.bounded(
@@ -1132,7 +1132,7 @@ def run_bounded(ctx):
             y, _ = gen_vector(rng, rng.randint(1, 9), family=meta["family"], mag=meta["mag"], offset=meta["offset"])
             for f, ddof, scaled, name in forms:
                 fcases.append(dict(x=x.tolist(), y=y.tolist(), formula=f + " - 1", ddof=ddof, scaled=scaled, name=name))
-        merge(b, rep, pmap(_formula_worker, chunked(fcases, 16)))
+        merge(b, rep, pmap(guard("vf.bounded.c13", "_formula_worker", "C13.scale.formula"), chunked(fcases, 16)))
         rep.close()
 
     with ctx.bounded(
@@ -1147,7 +1147,7 @@ def run_bounded(ctx):
     ) as b:
         rep = Reporter(ctx, b)
         mstats = Counter()
-        merge(b, rep, pmap(_multi_worker, chunked(_multi_cases(rng, *((3000, 960) if thorough else (300, 96))), 16)), mstats)
+        merge(b, rep, pmap(guard("vf.bounded.c13", "_multi_worker", "C13.scale.train-values"), chunked(_multi_cases(rng, *((3000, 960) if thorough else (300, 96))), 16)), mstats)
         inner_failed = sorted(k[1] for k in mstats if k[0] == "inner-failed")
         if inner_failed:
             ctx.notes.append(f"bounded:scale-multi-column: inner expressions that failed on their own (not judged): {inner_failed}")
@@ -1166,7 +1166,7 @@ def run_bounded(ctx):
         rep = Reporter(ctx, b)
         stats_ = Counter()
         cases = _poly_cases(rng, 12000 if thorough else 500, 5 if thorough else 4)
-        packed = pmap(_poly_worker, chunked(cases, 48))
+        packed = pmap(guard("vf.bounded.c13", "_poly_worker", "C13.poly.orthonormal"), chunked(cases, 48))
         worst = max((p[4].pop(("max", "poly-worst-e"), 0.0) for p in packed), default=0.0)
         merge(b, rep, packed, stats_)
         ctx.notes.append(f"bounded:poly: largest orthonormality/span residual observed = {worst:.1f} * n*eps*kappa (tolerance {POLY_C}); "
